@@ -52,13 +52,13 @@ HasObs(e, h) == ObsIdx(e, h) # {}
 ObsOf(e, h) == e.obs[CHOOSE i \in ObsIdx(e, h) : TRUE]
 
 (* observation of every live handle after the step; actors = handles the call acted on *)
-ObsViol(t2, e, actors) ==
+ObsViol(t2, e, actors, pact) ==
   UNION { IF ~t2[h].hr.live THEN {}
           ELSE IF ~HasObs(e, h) THEN {V("C01", "live handle not observed", h)}
           ELSE LET o == ObsOf(e, h)
                    m == t2[h].model
                    wrong == o.err # "" \/ o.ents # SortedPairs(m) \/ o.size # Cardinality(DOMAIN m)
-               IN (IF wrong THEN {V(IF h \in actors THEN "C01" ELSE "C02",
+               IN (IF wrong THEN {V(IF h \in actors THEN pact ELSE "C02",
                                     IF o.err # "" THEN "iteration fails" ELSE "contents or size differ from the map model", h)}
                    ELSE {})
                   \cup (IF ~wrong /\ ~o.dirty /\ m # t2[h].bmodel
@@ -78,15 +78,17 @@ Heights(t2, e) == [h \in HS |-> IF t2[h].hr.live /\ HasObs(e, h) THEN [t2[h] EXC
 
 LoadsViol(e, bound, what) == IF e.dloads > bound THEN {V("C16", what, e.h)} ELSE {}
 
-(* common tail of every action *)
-Finish(t2, cur2, rts2, names2, v, statf) ==
-  LET allv == v \cup ObsViol(t2, Ev, {Ev.h, Ev.g}) \cup RObsViol(rts2, Ev)
+(* common tail of every action; pact = the property a wrong observation of the acted-on handle belongs to *)
+FinishP(t2, cur2, rts2, names2, v, statf, pact) ==
+  LET allv == v \cup ObsViol(t2, Ev, {Ev.h, Ev.g}, pact) \cup RObsViol(rts2, Ev)
   IN /\ th' = Heights(t2, Ev)
      /\ cur' = cur2 /\ rts' = rts2 /\ names' = names2
      /\ viol' = viol \cup allv
      /\ bad' = (allv # {})
      /\ stat' = [Bump(Bump(statf, "events"), "obs") EXCEPT !.robs = @ + Len(Ev.robs)]
      /\ l' = l + 1 /\ UNCHANGED cfg
+
+Finish(t2, cur2, rts2, names2, v, statf) == FinishP(t2, cur2, rts2, names2, v, statf, "C01")
 
 Is(op) == l <= Len(Trace) /\ Ev.op = op
 
@@ -239,9 +241,12 @@ TLoad == /\ Good("load")
                      o == ObsOf(Ev, Ev.g)
                      v == IF Ev.res # "ok" THEN {V("C05", "loading a root returned by MakeRoot fails", Ev.g)}
                           ELSE (IF HasObs(Ev, Ev.g) /\ (o.err # "" \/ o.ents # SortedPairs(r.model) \/ o.size # r.size \/ o.height # r.height)
-                                THEN {V("C05", "reloaded tree differs in entries, size or height", Ev.g)} ELSE {})
+                                THEN {V(IF Ev.cached /\ cfg.cache # "none" THEN "C02" ELSE "C05", "reloaded tree differs in entries, size or height", Ev.g)} ELSE {})
                                \cup LoadsViol(Ev, 1, "opening a version reads more than its top node")
-                 IN IF Ev.res = "ok" THEN Finish([th EXCEPT ![Ev.g] = t2], cur, rts, names, v, Bump(stat, "load"))
+                     \* a tree loaded through the shared cache that differs although the store still holds the version: the
+                     \* captured version changed as seen through the cache (C02); otherwise persist->load is not the identity (C05)
+                 IN IF Ev.res = "ok" THEN FinishP([th EXCEPT ![Ev.g] = t2], cur, rts, names, v, Bump(stat, "load"),
+                                                  IF Ev.cached /\ cfg.cache # "none" THEN "C02" ELSE "C05")
                     ELSE Finish(th, cur, rts, names, v, Bump(stat, "load"))
 
 TDrop == /\ Good("drop")
